@@ -116,6 +116,9 @@ def run(pid, tier, seed, replay):
     ok, out, dt = vlib.cargo_build("h_execution", bin="c40")
     ck.log("cargo build h_execution: ok=%s (%.0fs)" % (ok, dt))
     if not ok:
+        if "TIMEOUT" in out and "error" not in out:
+            # cargo never got the shared target-dir lock (other checks building): machinery, not a verdict
+            raise RuntimeError("cargo build timed out waiting for the target directory lock:\n" + out[-500:])
         ck.problem("tie", "harness build failed:\n" + out[-3000:])
         return ck.finish()
     rc, so, se, dt = vlib.run_bin("c40", ["--seed", seed, "--n", n])
